@@ -57,7 +57,7 @@ FUNCS = ["EXP", "LOG", "SQRT", "ABS"]
 
 
 def budget(tier):
-    return int(os.environ.get("VERIF_BUDGET", 0)) or {"quick": 400, "thorough": 6000}[tier]
+    return int(os.environ.get("VERIF_BUDGET", 0)) or {"quick": 360, "thorough": 6000}[tier]
 
 
 def translators():
@@ -833,7 +833,7 @@ def k_record(drv, wire, rec_statements, rng, label, k, tags):
             return
         ce = cs.expression._sympy_()
         names = sorted({str(a) for a in ce.free_symbols} | _wsyms(ms[2]))
-        for trial in range(6):
+        for trial in range(4):
             env = {nme: rand_value(rng, nme) for nme in names}
             kinds = []
             try:
@@ -956,7 +956,7 @@ def run_prog(case, drv):
         return {"k": k, "mon": mon, "tags": tags, "nontrivial": True}
     base_names = ["X", "W", "TIME", "AMT", "THETA(1)", "THETA(2)", "THETA(3)", "ETA(1)", "ETA(2)", "EPS(1)"]
     done = False
-    for trial in range(6):
+    for trial in range(4):
         if done:
             break
         env_nm = {nme: rand_value(rng, nme) for nme in base_names}
